@@ -62,7 +62,24 @@ def stream_trace(tid, ops, lg, accel):
     init = [(i["region"], i["addr"], i["size"], i["sid"], -i["addr"]) for i in lg["init"] if i["size"] > 0]
     copies = []
     mech = set()
-    for o, c in zip(ops, cmds):
+    aliases = collections.defaultdict(list)
+    for al in lg.get("aliases", []):
+        aliases[al["before"]].append(al)
+
+    def alias_events(k):
+        # elided copy (high-level NOP: source and destination share one address): an in-place DMA of the tensor onto
+        # itself - the bytes must hold the source tensor and are the destination tensor from here on
+        for al in aliases.get(k, []):
+            n = min(al["in"]["size"], al["out"]["size"])
+            if n <= 0:
+                continue
+            evs.append(("dma", {"i": min(k, max(len(cmds) - 1, 0)), "mode": "retag", "src": (al["in"]["region"], al["in"]["addr"], n),
+                                "dst": (al["out"]["region"], al["out"]["addr"], n), "shift": al["in"]["addr"] - al["out"]["addr"],
+                                "insid": al["in"]["sid"], "indelta": -al["in"]["addr"], "outsid": al["out"]["sid"],
+                                "outdelta": -al["out"]["addr"], "name": al["name"]}))
+            mech.add("elided_copy")
+    for k, (o, c) in enumerate(zip(ops, cmds)):
+        alias_events(k)
         regs = o["regs"]
         if (o["kind"] == "dma") != (c["type"] == "dma"):
             raise MachineryError("pairing: operation %d is %s but the command is %s" % (o["index"], o["kind"], c["type"]))
@@ -121,6 +138,7 @@ def stream_trace(tid, ops, lg, accel):
                 wr.append(("ofm",) + s)
         wr.append(("shram", npuhw.SHRAM, 0, npuhw.shram_written_end(accel, g["lut"] is not None), CLOBBER, 0))
         evs.append(("k", {"i": o["index"], "rd": rd, "wr": wr, "name": c["name"]}))
+    alias_events(len(cmds))
     # coordinate compression
     pts = collections.defaultdict(set)
 
@@ -133,6 +151,8 @@ def stream_trace(tid, ops, lg, accel):
         if k == "k":
             for s in p["rd"] + p["wr"]:
                 mark(s[1], s[2], s[3])
+        elif p["src"][:2] == p["dst"][:2]:        # elided copy: no DMA registers, its extent delimits cells like an access
+            mark(*p["src"])
     cellrange, ncell = cells.endpoint_cells(pts, copies)
 
     def cl(r, a, n):
@@ -195,12 +215,14 @@ def mc_lut(run, tier):
 
 def jobs_for(tier, sd):
     n = 90 if tier == "quick" else 1600
-    jobs = corpus.all_singles(sd)
+    jobs = corpus.all_singles(sd, tier=tier)
     # emphasis: cascades (U65 dedicated SRAM with small cache, Size), wide convs with small cache, LUT chains, branches
     fams = ["chain", "chain", "wide", "lut", "branch", "mixed", "u8i16", "inplace", "lutmany", "resize", "pruned", "diamonds",
             "stride3", "widen", "tied", "bigchain", "nncascade", "bcast", "memcpy", "lutcascade", "lutcascade", "s2cascade",
             "s2cascade", "cpuouts"]
     jobs += corpus.draw(n, sd, families=fams, dedicated_bias=0.5)
+    if corpus.ops_families():     # operator-coverage families (memory-only operators, mixed precision, fused activations, fall-backs)
+        jobs += corpus.draw(10 if tier == "quick" else 250, sd + 3, families=corpus.ops_families(), dedicated_bias=0.5)
     return jobs
 
 
